@@ -132,8 +132,9 @@ type Exec struct {
 	TraceHash  uint64
 	EndClock   time.Duration
 	Threads    int
-	Conflicts  int // operations that touched an object last touched by another thread
-	Stalls     int // clock advances to a future instant while some thread was enabled
+	Conflicts  int      // operations that touched an object last touched by another thread
+	Stalls     int      // clock advances to a future instant while some thread was enabled
+	Stalled    []string // "name@operation" of the threads that could run while the clock advanced (with repetitions)
 }
 
 // Config parametrises one execution.
@@ -162,6 +163,7 @@ type randMemoEntry struct {
 }
 
 type run struct {
+	stalled  []string
 	randSeed int64
 	randIdx  int64
 	randMemo []randMemoEntry // a slice, not a map: runtime map accesses are seen by the race detector even from //go:norace code
@@ -268,7 +270,7 @@ func Run(cfg Config, body func()) *Exec {
 	r.loop()
 	atomic.StoreInt32(&wdActive, 0)
 	ex := &Exec{Points: r.points, Steps: r.steps, HorizonHit: r.hit, Trace: r.trace, TraceHash: r.thash,
-		EndClock: time.Duration(r.clock), Threads: len(r.threads), Conflicts: r.conflict, Stalls: r.stalls}
+		EndClock: time.Duration(r.clock), Threads: len(r.threads), Conflicts: r.conflict, Stalls: r.stalls, Stalled: r.stalled}
 	for _, t := range r.threads {
 		if t.state != stDone {
 			ex.Parked = append(ex.Parked, ParkInfo{ID: t.ID, Name: t.Name, Op: t.op.String(), InCall: t.InCall, Site: t.site})
@@ -619,6 +621,11 @@ func (r *run) loop() {
 			// clock transition
 			if !due && len(en) > 0 {
 				r.stalls++ // time passes although a thread could run: that thread is stalled
+				for _, t := range en {
+					if t.op != opIdle {
+						r.stalled = append(r.stalled, t.Name+"@"+t.op.String())
+					}
+				}
 			}
 			r.fireNext()
 			continue
